@@ -217,6 +217,16 @@ impl Cmp {
             Cmp::Ge => ">=",
         }
     }
+    /// The operator with its operands swapped: `a < b` is `b > a`.
+    pub fn mirrored(&self) -> Cmp {
+        match self {
+            Cmp::Lt => Cmp::Gt,
+            Cmp::Le => Cmp::Ge,
+            Cmp::Gt => Cmp::Lt,
+            Cmp::Ge => Cmp::Le,
+            o => *o,
+        }
+    }
     pub fn test(&self, o: std::cmp::Ordering) -> bool {
         use std::cmp::Ordering::*;
         match self {
@@ -233,6 +243,8 @@ impl Cmp {
 #[derive(Clone, Debug, PartialEq, Serialize, Deserialize)]
 pub enum Atom {
     Cmp { col: String, op: Cmp, val: Val },
+    /// The same comparison written with the constant first: `val op' col` (op mirrored).
+    CmpFlipped { col: String, op: Cmp, val: Val },
     IsNull { col: String },
     IsNotNull { col: String },
 }
@@ -255,6 +267,9 @@ impl Pred {
                 Atom::Cmp { col, op, val } => {
                     let _ = write!(s, "{col} {} {}", op.sql(), val.sql());
                 }
+                Atom::CmpFlipped { col, op, val } => {
+                    let _ = write!(s, "{} {} {col}", val.sql(), op.mirrored().sql());
+                }
                 Atom::IsNull { col } => {
                     let _ = write!(s, "{col} IS NULL");
                 }
@@ -271,7 +286,7 @@ impl Pred {
         let mut unknown = false;
         for a in &self.0 {
             let r = match a {
-                Atom::Cmp { col, op, val } => {
+                Atom::Cmp { col, op, val } | Atom::CmpFlipped { col, op, val } => {
                     let v = &row[def.col_idx(col).expect("pred column")];
                     if v.is_null() || val.is_null() {
                         None
